@@ -15,7 +15,8 @@
 (* Mismatch classes: C10 (a clause of the property), C10done (the Done flag  *)
 (* / skip counter heuristics of the code's exits), C10E (EstimateUpper in    *)
 (* the one state where the unchanged compressed builder is known to violate  *)
-(* it: byte_cost still 0), tool (harness plumbing).                          *)
+(* it: byte_cost still 0), C10L (LaterOutputUnaffected, cost only, compressed *)
+(* builder after rejected attempts), tool (harness plumbing).                *)
 (* Never blocks: after a mismatch that loses the state the rest of the       *)
 (* history is not judged (void) until the next reset.                        *)
 EXTENDS BlockBuilder, TraceUtil
@@ -59,13 +60,21 @@ FinalOk(e) ==
   /\ e.rbg2.ok /\ SameBag(e.rbg2.coins, CoinsOf(FlattenSpends(accepted)))  \* consensus sees the accepted spends
   /\ AllTruthful(accepted) => /\ e.rbg2.cost = e.cost                      \* CostIsConsensus
                               /\ e.cost = ConsensusCost(cfg, accepted, e.exact)
-  /\ e.twin.ran /\ e.twin.spends_equal /\ e.twin.sig_equal /\ e.twin.cost_equal   \* LaterOutputUnaffected
+  /\ e.twin.ran => e.twin.spends_equal /\ e.twin.sig_equal                \* LaterOutputUnaffected (spends, signature)
 
-Init == /\ BInit([kind |-> "compressed", max |-> 100000000, cpb |-> 12000, thr |-> MinCostThreshold])
+\* LaterOutputUnaffected, cost: a twin builder that is offered only the accepted attempts accepts them and returns
+\* the same cost. Known to fail for the unchanged compressed builder after rejected attempts (class C10L): the
+\* serializer's back-reference cache keeps traces of an undone add, so later compression - and with it the
+\* generator bytes and the cost - may differ although the spends and the signature are the same.
+TwinCostOk(e) == e.twin.ran /\ e.twin.cost_equal
+TwinClass(e) == IF IsCompressed(cfg) /\ e.rejected_attempts > 0 /\ (e.twin.ran => e.twin.spends_equal /\ e.twin.sig_equal)
+                THEN "C10L" ELSE "C10"
+
+Init == /\ BInit([kind |-> "compressed", max |-> 100000000, cpb |-> 12000, thr |-> MinCostThreshold, skip |-> MaxSkippedItems])
         /\ void = TRUE /\ l = 1 /\ MismatchInit
 
 Reset(e) ==
-  LET c == [kind |-> e.kind, max |-> e.max, cpb |-> e.cpb, thr |-> MinCostThreshold]
+  LET c == [kind |-> e.kind, max |-> e.max, cpb |-> e.cpb, thr |-> MinCostThreshold, skip |-> MaxSkippedItems]
       s == InitState(c) IN
   /\ cfg' = c /\ phase' = "open" /\ last' = [k |-> "new"]
   /\ SetSt(s)
@@ -94,6 +103,7 @@ Next ==
                   /\ IF e.res # "ok" \/ e.est >= e.cost THEN TRUE
                      ELSE CheckC(FALSE, l, IF Stale(cfg, St) /\ e.cost - e.est = (InitSerSize + ClosingBytes) * cfg.cpb
                                            THEN "C10E" ELSE "C10")
+                  /\ IF e.res # "ok" \/ TwinCostOk(e) THEN TRUE ELSE CheckC(FALSE, l, TwinClass(e))
                   /\ phase' = "finalized"
                   /\ last' = [k |-> "finalize"]
                   /\ UNCHANGED <<cfg, accepted, blockCost, byteCost, size, skipped, sigBag, void>>)
